@@ -58,7 +58,9 @@ Verdict(e) ==
               ~(Len(o.gp) = sm.arrLen /\ \A r \in 1..sm.arrLen : Close(o.gp[r], gpAt(r - 1), n))
            THEN "GpIsArray"
       ELSE IF o.mci \notin sm.inc[1]
-           THEN (IF o.mci = 2 /\ 2 \notin sm.inc[1] /\ sm.inc[1] # {0}
+           \* the open finding D8 (bound = size of the first compared chain's support) is named apart;
+           \* a flag that reading does not produce either is a different failure
+           THEN (IF e.kind = "hap" /\ o.mci = 2 /\ o.mci \in sm.incD8[1]
                  THEN "MciFlag2UnionWithinPloidy" ELSE "MciIsIncongruence")
       ELSE "ok"
 
